@@ -545,6 +545,9 @@ func blastMain(args mon.Args, prop string) {
 			mirrorLn.Close()
 		}
 	}
+	if prop == "C12" || prop == "C13" {
+		stallProcess(run, prop, bin, dir)
+	}
 	if prop == "C01" && args.Replay == "" {
 		stormProcess(run, dir)
 	}
